@@ -488,6 +488,60 @@ def real_fs(ck, work, quick):
     if bad:
         ck.violation(f"three runs through main() in one directory (two on the same Lithium object): {bad}",
                      {"case": "main-twice", "got": got})
+    # ONE Lithium object, a history of runs with the directory population changing in between (an earlier tmpN removed,
+    # the process moved to another directory, names taken by files, a gap opened below): each run uses the lowest
+    # number whose name is free AT THAT MOMENT - nothing is remembered from the runs before
+    d5 = os.path.join(work, "history")
+    os.mkdir(d5)
+    prog2 = (
+        "import os, sys, json, logging, shutil, itertools\n"
+        f"sys.path.insert(0, {src!r})\n"
+        "logging.disable(logging.CRITICAL)\n"
+        "from lithium.reducer import Lithium\n"
+        "base = sys.argv[1]\n"
+        "os.chdir(base)\n"
+        "cond = os.path.join(base, 'cond.py'); t = os.path.join(base, 't.txt')\n"
+        "open(cond,'w').write('def interesting(args, prefix):\\n    return len(open(args[-1],\"rb\").read()) >= 4\\n')\n"
+        "def rm(n): shutil.rmtree(n, ignore_errors=True)\n"
+        "def cd(n): os.makedirs(n, exist_ok=True); os.chdir(n)\n"
+        "def touch(n): open(n, 'w').close()\n"
+        "plans = {'same': [None, ('rm','tmp1'), None, None, ('rm','tmp2'), ('rm', 'tmp1')],\n"
+        "         'files': [('touch','tmp1'), None, ('touch','tmp4'), None, ('rm','tmp2')],\n"
+        "         'moved': [None, ('cd','sub1'), None, ('cd', os.path.join(base, 'sub2')), ('cd', base), ('rm', 'tmp1')],\n"
+        "         'fresh-each': [None, ('rm','tmp1'), ('cd','sub3'), None]}\n"
+        "out = {}\n"
+        "for name, plan in plans.items():\n"
+        "    cd(os.path.join(base, 'plan-' + name))\n"
+        "    l = Lithium()\n"
+        "    rows = []\n"
+        "    for act in plan:\n"
+        "        if act: {'rm': rm, 'cd': cd, 'touch': touch}[act[0]](act[1])\n"
+        "        if name == 'fresh-each': l = Lithium()\n"
+        "        open(t,'w').write('a\\nb\\nc\\nd\\n')\n"
+        "        want = next('tmp%d' % n for n in itertools.count(1) if not os.path.lexists('tmp%d' % n))\n"
+        "        try:\n"
+        "            rc = l.main([cond, t])\n"
+        "        except BaseException as e:\n"
+        "            rc = type(e).__name__\n"
+        "        rows.append([str(act), want, str(l.temp_dir), rc, os.path.isdir(want) and bool(os.listdir(want))])\n"
+        "    out[name] = rows\n"
+        "print(json.dumps(out))\n")
+    try:
+        pr = subprocess.run(["timeout", "-s", "KILL", "90", sys.executable, "-c", prog2, d5], capture_output=True,
+                            text=True, timeout=100, check=False)
+        got5 = json.loads(pr.stdout.strip().splitlines()[-1])
+    except Exception as e:  # pylint: disable=broad-except
+        got5 = {"crash": [[str(e)[:200], pr.stderr[-300:] if "pr" in dir() else ""]]}
+    for name, rows in got5.items():
+        ck.count("realfs")
+        ck.nontrivial(("realfs", "history", name))
+        for i, row in enumerate(rows):
+            if len(row) != 5 or row[1] != row[2] or row[3] not in (0, 1) or not row[4]:
+                ck.violation(f"one Lithium object, run {i + 1} of history '{name}' (before it: {row[0] if row else '?'}): the lowest free "
+                             f"name was {row[1] if len(row) > 1 else '?'}, the run used {row[2] if len(row) > 2 else '?'} "
+                             f"(status {row[3] if len(row) > 3 else '?'}, files written there: {row[4] if len(row) > 4 else '?'})",
+                             {"case": "history-" + name, "rows": rows})
+                break
 
 
 def real_race(ck, work, quick, r):
